@@ -14,7 +14,7 @@ import Generated.TrainKernels
 
   The regenerated definitions take the path as a `Tpc` and the trace samples as (vPrev vCur tPrev tCur):
   ops whose layout carries only the lists / only `dt` build a `Tpc` around the lists and use `tPrev = 0`,
-  `tCur = dt` (`dt - 0 = dt` exactly).
+  `tCur = dt` (`dt - 0 = dt` exactly); `gen_walk_stuck` builds the state before the step around the previous speed.
 -/
 namespace Driver.OpsGenTrain
 open Altrios Altrios.Proto Altrios.Tpc Altrios.Rs Altrios.Tr Altrios.PT Altrios.CS Driver
@@ -67,6 +67,11 @@ def handlers : List (String × Handler) := [
   ("gen_walk_cond", do
     let e ← float; let s ← trainState
     pure ("ok " ++ fB (GenTr.walkCond ft1000 e s))),
+  -- the `ensure!` after `self.step()?` in the loop of walk_internal   layout of `walk_stuck`
+  -- (the regenerated definition takes the state BEFORE the step, of which it reads the speed only: built around it)
+  ("gen_walk_stuck", do
+    let e ← float; let vp ← float; let s ← trainState
+    pure ("ok " ++ fB (GenTr.walkStuck ft1000 e { s with r := { s.r with speed := vp } } s))),
   -- SpeedLimitTrainSim::get_scaling_factor            layout of `scaling_factor`
   ("gen_scaling_factor", do
     let a ← bool; let d ← opt float
